@@ -231,6 +231,27 @@ impl Property for C15 {
     fn cases_per_shard(&self, tier: Tier) -> u32 {
         tier.pick(20000, 400000)
     }
+    fn extra(&self, tier: Tier, _seed: u64, ctx: &mut Ctx, stats: &mut Stats) -> Vec<(Value, Failure)> {
+        // numerals of thousands of digits (the input limit admits 49,149): integer parts on both sides of
+        // 2^8, 2^12, 2^14, 2^15, with and without a fraction, plain and comma-grouped
+        let lens: Vec<usize> = match tier {
+            Tier::Quick => vec![255, 256, 257, 4096, 16_384, 32_766, 32_767, 32_768, 32_769, 40_000],
+            Tier::Thorough => vec![127, 128, 129, 255, 256, 257, 1023, 1024, 4095, 4096, 4097, 16_383, 16_384, 16_385, 32_766, 32_767, 32_768, 32_769, 32_770, 40_000, 49_000],
+        };
+        let mut fam: Vec<(String, Case)> = Vec::new();
+        for n in lens {
+            let digits: Vec<u8> = (0..n).map(|i| ((i * 7 + 3) % 10) as u8).collect();
+            for frac in [None, Some(vec![5u8]), Some(vec![0u8, 2, 5])] {
+                let name = format!("{} digits{}", n, if frac.is_some() { " + fraction" } else { "" });
+                fam.push((name, Case { num: Num::Plain { digits: digits.clone(), frac: frac.clone(), style: 0, sel: 0 }, prefix: "あ".into(), suffix: "円".into(), fullwidth: false, mutation: None, preamble: None }));
+            }
+            if n <= 30_000 {
+                let groups: Vec<[u8; 3]> = (0..n / 3).map(|i| [(i % 10) as u8, ((i / 10) % 10) as u8, 7]).collect();
+                fam.push((format!("{} comma groups", n / 3), Case { num: Num::Comma { first: vec![1, 2], groups, frac: Some(vec![2, 5]) }, prefix: String::new(), suffix: "x".into(), fullwidth: false, mutation: None, preamble: None }));
+            }
+        }
+        run_family(self, ctx, stats, "long-numerals", fam)
+    }
     fn sample(&self, case: &Case) -> Value {
         let (s, e) = case.num.render();
         let shown = match &case.mutation {
